@@ -25,6 +25,9 @@ from core.engine import Property, F
 from core import lean
 
 CFG1 = {"processes": 1, "maxchunksperchild": 0, "maxtasksperchunk": 0}
+# "every byte offset": a byte range with a pad whose length is 3*log2(size) so that every halving step of
+# the shrinker yields a strictly shorter case (the engine only accepts shorter canonical JSON)
+ALL = [["kr", 0, (1 << 20) - 1, "x" * 60]]
 
 
 # ------------------------------------------------------------------ building and running
@@ -179,6 +182,19 @@ class Log:
             return max(0, min(n, spec[1] * n // 1000))
         return max(0, min(n, spec[1]))
 
+    def all_ks(self, cuts):
+        """cut specs: "all" | list of ["b",record,delta] | ["p",permille] | ["k",byte] | ["kr",first byte,last byte]"""
+        n = len(self.data)
+        if cuts == "all":
+            return list(range(n + 1))
+        ks = set()
+        for s in cuts:
+            if s[0] == "kr":
+                ks.update(range(max(0, s[1]), min(n, s[2]) + 1))
+            else:
+                ks.add(self.resolve(s))
+        return sorted(ks)
+
     def cut_class(self, k):
         """(class name, number of complete records j, tail bytes)"""
         if self.gz:
@@ -222,9 +238,15 @@ def detect_flags():
             ext = ".log.gz" if gz else ".log"
             full = os.path.join(d, "full" + ext)
             st, res = run(PROBE, full, None, CFG1)
-            assert st == "ok", res
+            if st != "ok":      # not even an uninterrupted run works: evaluate() reports that as `full-run-raises`
+                out += [False] if gz else [False, False]
+                continue
             ref = canon_result(res)
-            log = Log(open(full, "rb").read(), gz)
+            try:
+                log = Log(open(full, "rb").read(), gz)
+            except (LogShape, ValueError):      # the tree writes logs of another shape: reported by evaluate() as a correspondence failure
+                out += [False] if gz else [False, False]
+                continue
             torn = log.bounds[3] + 2
             p1 = os.path.join(d, "torn" + ext)
             open(p1, "wb").write(log.data[:torn])
@@ -246,7 +268,7 @@ class C02(Property):
     id = "C02"
     prop_modules = ["CobaVerif.Props.C02"]
     quick_n = 420
-    thorough_n = 5000
+    thorough_n = 10000
     search_n = 160
     case_timeout = 120
     workers = 8
@@ -324,7 +346,7 @@ class C02(Property):
         c = self.gen_exp(rng, small=True)
         c["gz"] = rng.chance(0.3)
         c["cfg0"], c["cfg"] = CFG1, self.gen_cfg(rng, False)
-        c["cuts"] = "all"
+        c["cuts"] = ALL
         if rng.chance(0.3):
             c["chain"] = {"p": rng.below(1001), "d": rng.choice([-1, 0, 1]), "cfg": CFG1}
         return c
@@ -337,17 +359,17 @@ class C02(Property):
             cs.append(dict(base, gz=gz, cuts=[["b", 3, 1], ["b", 3, -1], ["b", 0, 0], ["b", 1, 0], ["b", 0, 5], ["b", 1, -1], ["b", 6, 0], ["b", 6, -1]]))
         # empty_rows_counterexample: real SequentialCB on an environment without interactions, resumed from the complete log
         cs.append(dict(base, envs=[{"n": 0}, {"n": 2}], vals=[{"mode": "cb"}], gz=False, cuts=[["b", 99, 0], ["b", 5, 0], ["b", 6, 2]]))
-        cs.append(dict(base, envs=[{"n": 2, "p": 3}, {"n": 1, "p": 1}], lrns=[{"p": 1}, {"p": 2}], vals=[{"style": 2}, {"mode": "cb"}], gz=False, cuts="all",
+        cs.append(dict(base, envs=[{"n": 2, "p": 3}, {"n": 1, "p": 1}], lrns=[{"p": 1}, {"p": 2}], vals=[{"style": 2}, {"mode": "cb"}], gz=False, cuts=ALL,
                        desc="a \"q\" [x] \n é"))
-        cs.append(dict(base, envs=[{"n": 2, "p": 2}], lrns=[{"p": 1}, {}], gz=True, cuts="all"))
-        cs.append(dict(base, envs=[{"n": 1}, {"n": 2}], lrns=[{}, {}], triples=[[1, 1, 0], [0, 0, 0], [1, 0, 0]], boom=[[1, 0]], gz=False, cuts="all",
+        cs.append(dict(base, envs=[{"n": 2, "p": 2}], lrns=[{"p": 1}, {}], gz=True, cuts=ALL))
+        cs.append(dict(base, envs=[{"n": 1}, {"n": 2}], lrns=[{}, {}], triples=[[1, 1, 0], [0, 0, 0], [1, 0, 0]], boom=[[1, 0]], gz=False, cuts=ALL,
                        chain={"p": 500, "d": 1, "cfg": CFG1}))
         cs.append(dict(base, envs=[{"n": 1}, {"n": 2}], lrns=[{}, {}], gz=False, cfg={"processes": 2}, cuts=[["b", 4, 3], ["b", 5, 0]]))
         cs.append(dict(base, envs=[{"n": 1}, {"n": 2}], chunk=True, gz=False, cfg={"processes": 1, "maxtasksperchunk": 1}, cuts=[["b", 4, 3], ["b", 5, 0], ["b", 3, -1]]))
         return cs
 
     def exhaustive(self, tier):
-        base = {"desc": "x", "cfg0": CFG1, "cfg": CFG1, "cuts": "all"}
+        base = {"desc": "x", "cfg0": CFG1, "cfg": CFG1, "cuts": ALL}
         out = []
         for gz in (False, True):
             out.append(dict(base, envs=[{"n": 1}], lrns=[{}], vals=[{"nrows": 1}], gz=gz))
@@ -391,7 +413,7 @@ class C02(Property):
         keys = [r[:4] for r in log.recs]
         if len(set(keys)) != len(keys):
             dup = sorted(set(k for k in keys if keys.count(k) > 1))
-            fails.append(F("B", "the uninterrupted run recorded an id twice: %s" % dup, "full-run-duplicate-id"))
+            fails.append(F("A", "the uninterrupted run recorded an id twice: %s" % dup, "A:full-run-duplicate-id"))
         em, lm, vm = ids_of(case)
         inv = ({v: k for k, v in em.items()}, {v: k for k, v in lm.items()}, {v: k for k, v in vm.items()})
 
@@ -404,7 +426,7 @@ class C02(Property):
             return tindex[ln]
         full_idx = [entry(ln, r) for ln, r in zip(log.lines, log.recs)]
 
-        ks = sorted(set(range(len(log.data) + 1) if case["cuts"] == "all" else [log.resolve(s) for s in case["cuts"]]))
+        ks = log.all_ks(case["cuts"])
         nontrivial = False
         steps = []      # (stage label, Log being cut, k, cfg)
         for k in ks:
@@ -523,8 +545,6 @@ class C02(Property):
                 kind = "rows0" if recorded_rows[t] == 0 else "rows+"
                 fails.append(F("B", "triple (env %d, learner %d, evaluator %d) has an I record among the complete lines of the file and was evaluated again: %s" % (t + (where,)),
                                "reevaluated:" + kind))
-        if len(set(evaluated)) != len(evaluated):
-            fails.append(F("B", "a triple was evaluated twice by one resumed run: %s; %s" % (evaluated, where), "evaluated-twice"))
         # (B4) no I id twice in the final file; the file stays a sequence of complete lines
         text = content_of(final, gz)
         if text is not None:
@@ -612,6 +632,15 @@ class C02(Property):
         cuts = case["cuts"]
         if case.get("chain"):
             yield {k: v for k, v in case.items() if k != "chain"}
+        if cuts != "all" and len(cuts) == 1 and cuts[0][0] == "kr":
+            lo, hi = cuts[0][1], cuts[0][2]
+            if lo >= hi:
+                yield dict(case, cuts=[["k", lo]])
+            else:
+                mid = (lo + hi) // 2
+                pad = "x" * (3 * max(0, (mid - lo + 1).bit_length() - 1))
+                yield dict(case, cuts=[["kr", lo, mid, pad]])
+                yield dict(case, cuts=[["kr", mid + 1, hi, pad]])
         if cuts != "all" and len(cuts) > 1:
             for c in cuts:
                 yield dict(case, cuts=[c])
@@ -659,7 +688,7 @@ class C02(Property):
                 "full = os.path.join(d, 'full' + ext)\n"
                 "ref = build(case, None).run(full, quiet=True, processes=1)\n"
                 "log = Log(open(full, 'rb').read(), bool(case.get('gz')))\n"
-                "ks = range(len(log.data) + 1) if case['cuts'] == 'all' else sorted(set(log.resolve(s) for s in case['cuts']))\n"
+                "ks = log.all_ks(case['cuts'])\n"
                 "for k in ks:\n"
                 "    p = os.path.join(d, 'cut%%d%%s' %% (k, ext)); open(p, 'wb').write(log.data[:k])\n"
                 "    try:\n"
